@@ -277,3 +277,194 @@ def _replace_node(root, old, new):
                     if x is old:
                         val[k] = new
                         return
+
+
+# ---------------------------------------------------------------------------------------------------------------
+# undo "extract constant": a module-level name the reference does not have, bound once to a literal, read-only in this module
+
+
+def _literal_like(e) -> bool:
+    if isinstance(e, ast.Constant):
+        return True
+    if isinstance(e, (ast.Tuple, ast.List, ast.Set)):
+        return all(_literal_like(x) for x in e.elts)
+    if isinstance(e, ast.Dict):
+        return all(k is not None and _literal_like(k) and (_literal_like(v) or _simple(v)) for k, v in zip(e.keys, e.values))
+    if isinstance(e, ast.UnaryOp) and isinstance(e.op, (ast.USub, ast.UAdd)):
+        return _literal_like(e.operand)
+    if isinstance(e, ast.JoinedStr):
+        return False
+    return False
+
+
+_READ_ONLY_ATTRS = {"get", "keys", "values", "items", "index", "count", "join", "startswith", "endswith", "format"}
+
+
+def undo_constant_extractions(modules: Dict[str, ast.Module], ref_modnames: Dict[str, Dict], log: List[str]):
+    """A module-level `NAME = <literal>` that the reference tree does not have, bound once, never re-bound through `global`, not imported
+    by another module, and only read (membership tests, iteration, indexing, .get/.keys - never stored into or passed on as an object
+    when it is a list/dict/set) is a literal that was given a name: every read gets the literal back and the binding is removed."""
+    imported = set()
+    for t in modules.values():
+        for n in ast.walk(t):
+            if isinstance(n, ast.ImportFrom):
+                imported |= {a.name for a in n.names}
+    for mname, tree in modules.items():
+        known = set(ref_modnames.get(mname, {}))
+        if not ref_modnames:
+            return
+        parents = {}
+        for n in ast.walk(tree):
+            for c in ast.iter_child_nodes(n):
+                parents[id(c)] = n
+        binds = {}
+        for st in tree.body:
+            tgt = val = None
+            if isinstance(st, ast.Assign) and len(st.targets) == 1 and isinstance(st.targets[0], ast.Name):
+                tgt, val = st.targets[0].id, st.value
+            elif isinstance(st, ast.AnnAssign) and isinstance(st.target, ast.Name) and st.value is not None:
+                tgt, val = st.target.id, st.value
+            if tgt is not None:
+                binds.setdefault(tgt, []).append((st, val))
+        for name, lst in binds.items():
+            if name in known or name in imported or len(lst) != 1 or name.startswith("__"):
+                continue
+            st, val = lst[0]
+            if not _literal_like(val):
+                continue
+            occ = [n for n in ast.walk(tree) if isinstance(n, ast.Name) and n.id == name]
+            stores = [n for n in occ if not isinstance(n.ctx, ast.Load)]
+            if len(stores) != 1 or any(isinstance(n, (ast.Global, ast.Nonlocal)) and name in n.names for n in ast.walk(tree)):
+                continue
+            loads = [n for n in occ if isinstance(n.ctx, ast.Load)]
+            if not loads:
+                continue
+            mutable = isinstance(val, (ast.List, ast.Dict, ast.Set))
+            ok = True
+            for n in loads:
+                p = parents.get(id(n))
+                if not mutable:
+                    continue
+                if isinstance(p, ast.Compare) and n in p.comparators and isinstance(p.ops[p.comparators.index(n)], (ast.In, ast.NotIn)):
+                    continue
+                if isinstance(p, (ast.For, ast.comprehension)) and p.iter is n:
+                    continue
+                if isinstance(p, ast.Subscript) and p.value is n and isinstance(p.ctx, ast.Load):
+                    continue
+                if isinstance(p, ast.Attribute) and p.attr in _READ_ONLY_ATTRS:
+                    continue
+                if isinstance(p, ast.Call) and isinstance(p.func, ast.Name) and p.func.id in ("len", "set", "list", "tuple", "sorted", "frozenset", "dict", "any", "all", "str"):
+                    continue
+                ok = False
+                break
+            if not ok:
+                continue
+            for n in loads:
+                p = parents.get(id(n))
+                new = ast.copy_location(copy.deepcopy(val), n)
+                for f, v in ast.iter_fields(p):
+                    if v is n:
+                        setattr(p, f, new)
+                    elif isinstance(v, list):
+                        for i, x in enumerate(v):
+                            if x is n:
+                                v[i] = new
+            tree.body.remove(st)
+            ast.fix_missing_locations(tree)
+            log.append(f"constant {mname}.{name} inlined ({len(loads)} use(s))")
+
+
+# ---------------------------------------------------------------------------------------------------------------
+# undo "introduce explaining variable": a local the reference function does not have, bound once, read once right after
+
+
+def _eval_order(e):
+    """nodes of an expression in (approximate) evaluation order: operands before the operation that uses them"""
+    out = []
+
+    def rec(n):
+        if isinstance(n, (ast.Lambda, ast.ListComp, ast.SetComp, ast.DictComp, ast.GeneratorExp)):
+            out.append(n)
+            return
+        for c in ast.iter_child_nodes(n):
+            rec(c)
+        out.append(n)
+    rec(e)
+    return out
+
+
+def undo_new_locals(fn, ref_locals, log: List[str], qual: str):
+    """A local that the reference function does not have, bound exactly once by a plain statement `t = E`, and read exactly once - in the
+    very next statement, before anything else of that statement that could have an effect is evaluated - only names E: the read gets E back
+    and the binding goes.  A binding whose value has no call at all (a literal, an access path, arithmetic on those) may be read any number
+    of times in later statements of its block as long as nothing it mentions is re-bound."""
+    known = set(ref_locals)
+    for _ in range(12):
+        stores: Dict[str, int] = {}
+        for n in ast.walk(fn):
+            if isinstance(n, ast.Name) and not isinstance(n.ctx, ast.Load):
+                stores[n.id] = stores.get(n.id, 0) + 1
+            elif isinstance(n, ast.arg):
+                stores[n.arg] = stores.get(n.arg, 0) + 1
+        done = False
+        for owner in ast.walk(fn):
+            if isinstance(owner, (ast.Lambda,)) or (owner is not fn and isinstance(owner, (ast.FunctionDef, ast.AsyncFunctionDef, ast.ClassDef))):
+                continue
+            for fld in ("body", "orelse", "finalbody"):
+                lst = getattr(owner, fld, None)
+                if not (isinstance(lst, list) and lst and isinstance(lst[0], ast.stmt)):
+                    continue
+                for i, st in enumerate(lst):
+                    if not (isinstance(st, ast.Assign) and len(st.targets) == 1 and isinstance(st.targets[0], ast.Name)):
+                        continue
+                    x = st.targets[0].id
+                    if x in known or stores.get(x) != 1 or i + 1 >= len(lst):
+                        continue
+                    reads = [n for n in ast.walk(fn) if isinstance(n, ast.Name) and n.id == x and isinstance(n.ctx, ast.Load)]
+                    if not reads:
+                        continue
+                    has_call = any(isinstance(n, (ast.Call, ast.Await, ast.Yield, ast.YieldFrom)) for n in ast.walk(st.value))
+                    nxt = lst[i + 1]
+                    if has_call:
+                        if len(reads) != 1:
+                            continue
+                        # the read must be in the header of the next statement and nothing with an effect may be evaluated before it
+                        hdr = [getattr(nxt, f) for f in ("value", "test", "iter", "exc") if isinstance(getattr(nxt, f, None), ast.AST)]
+                        if isinstance(nxt, ast.Assign):
+                            hdr = [nxt.value]
+                        order = [n for h in hdr for n in _eval_order(h)]
+                        if not any(n is reads[0] for n in order):
+                            continue
+                        before = order[:[k for k, n in enumerate(order) if n is reads[0]][0]]
+                        if any(isinstance(n, (ast.Call, ast.Await, ast.Lambda, ast.ListComp, ast.GeneratorExp, ast.SetComp, ast.DictComp)) for n in before):
+                            continue
+                        # not inside a lambda / comprehension of that statement (it would be evaluated later, or repeatedly)
+                        if any(isinstance(n, (ast.Lambda, ast.ListComp, ast.GeneratorExp, ast.SetComp, ast.DictComp)) and any(m is reads[0] for m in ast.walk(n))
+                               for h in hdr for n in ast.walk(h)):
+                            continue
+                    else:
+                        later = {id(y) for s in lst[i + 1:] for y in ast.walk(s)}
+                        if not all(id(r) in later for r in reads):
+                            continue
+                        if any(stores.get(n.id, 0) > 1 for n in ast.walk(st.value) if isinstance(n, ast.Name)):
+                            continue
+                        if any(isinstance(n, (ast.List, ast.Dict, ast.Set, ast.ListComp, ast.DictComp, ast.SetComp)) for n in ast.walk(st.value)) and len(reads) > 1:
+                            continue          # a fresh container read twice is one object, not two
+
+                    class R(ast.NodeTransformer):
+                        def visit_Name(s, n):
+                            if n.id == x and isinstance(n.ctx, ast.Load):
+                                return ast.copy_location(copy.deepcopy(st.value), n)
+                            return n
+                    new = [R().visit(s) for s in lst if s is not st]
+                    setattr(owner, fld, new)
+                    ast.fix_missing_locations(fn)
+                    log.append(f"{qual}: introduced local {x} read back as its value")
+                    done = True
+                    break
+                if done:
+                    break
+            if done:
+                break
+        if not done:
+            return
